@@ -438,6 +438,8 @@ pub extern "C" fn waitable_set_poll(_s: u32, out: *mut [u32; 2]) -> u32 {
 }
 #[unsafe(export_name = "[subtask-cancel]")]
 pub extern "C" fn subtask_cancel(hd: u32) -> u32 {
+    // a call that is still STARTING is either stopped before it starts (schedule mode G) or has started in the meantime
+    // (mode H: the host reads the parameters now) and gives up: RETURN_CANCELLED either way for one that has started
     let r = ah(|h| {
         if hd == 0 || hd as usize > h.subs.len() || h.subs[hd as usize - 1].dropped {
             return None;
@@ -446,13 +448,15 @@ pub extern "C" fn subtask_cancel(hd: u32) -> u32 {
         if s.set != 0 {
             return Some(Err("subtask.cancel of a subtask that is still a member of a waitable set"));
         }
-        let st = match s.state {
-            STARTING => START_CANCELLED,
-            STARTED => RETURN_CANCELLED,
+        let (st, read_now) = match s.state {
+            STARTING if s.mode == 'G' => (START_CANCELLED, false),
+            STARTING => (RETURN_CANCELLED, true),
+            STARTED => (RETURN_CANCELLED, false),
             _ => return Some(Err("subtask.cancel of a subtask that has already returned or been cancelled")),
         };
         s.state = st;
-        Some(Ok(st))
+        s.checked |= read_now;
+        Some(Ok((st, read_now, s.key.clone(), s.args.clone())))
     });
     match r {
         None => {
@@ -461,11 +465,20 @@ pub extern "C" fn subtask_cancel(hd: u32) -> u32 {
         }
         Some(Err(m)) => {
             problem("protocol", m);
-            ev(|| json!({"ev": "subtask.cancel", "h": hd, "status": RETURN_CANCELLED}));
+            ev(|| json!({"ev": "subtask.cancel", "h": hd, "status": RETURN_CANCELLED, "checked": false, "errors": 0}));
             RETURN_CANCELLED
         }
-        Some(Ok(st)) => {
-            ev(|| json!({"ev": "subtask.cancel", "h": hd, "status": st}));
+        Some(Ok((st, read_now, key, args))) => {
+            let mut errors = 0;
+            if read_now {
+                let spec = host(|| spec_of_import(&key)).unwrap();
+                errors = host(|| check_params(&key, &spec, &args, "started just before the cancellation"));
+            }
+            host(|| {
+                drop(key);
+                drop(args);
+            });
+            ev(|| json!({"ev": "subtask.cancel", "h": hd, "status": st, "checked": read_now, "errors": errors}));
             st
         }
     }
